@@ -29,6 +29,7 @@ from . import c03, setops
 
 ASSUMES = ["rustc's borrow checker and auto-trait rules", "C15 (arena is a tree) for R14.5"]
 LEVEL_TEXT = __doc__
+ALL_SUBSETS = True   # thorough tier: all 16 feature subsets (rules read configuration-dependent code)
 TABLE_GET_MUT = "prefix_trie::inner::Table::<P, T>::get_mut"
 MAP_ADTS = ("prefix_trie::map::PrefixMap", "prefix_trie::set::PrefixSet")
 
